@@ -102,7 +102,11 @@ class iterable_loader(DataStreamProcessor):
     def process_datapackage(self, dp: Package):
         name = self.name
         if name is None:
-            name = 'res_{}'.format(len(dp.resources) + 1)
+            taken = [res.get('name') for res in dp.descriptor.get('resources', [])]
+            index = len(dp.resources) + 1
+            while 'res_{}'.format(index) in taken:
+                index += 1
+            name = 'res_{}'.format(index)
         self.res = Resource(dict(
             name=name,
             path='{}.csv'.format(name)
